@@ -83,8 +83,17 @@ def invalid_signature(msg):
     return "other"
 
 
-def judge(src, entry, is_entry):
+def judge(src, entry, is_entry, experimental=False):
     """-> (status, bucket, detail): ok | rejected | violation"""
+    if experimental or "# experimental" in src:
+        from guppylang_internals.experimental import enable_experimental_features
+
+        with enable_experimental_features():
+            return _judge(src, entry, is_entry)
+    return _judge(src, entry, is_entry)
+
+
+def _judge(src, entry, is_entry):
     from vlib import runner
 
     try:
@@ -302,7 +311,35 @@ def templates(st):
             L.append("    " + fm)
         return {"src": "from collections.abc import Callable\n" + "\n".join(L) + "\n", "labels": ["tmpl:generic_inst", "tmpl:inst:" + t1], "entry": "f"}
 
-    return st.one_of(tuple_sum(), affine_unused(), struct_place(), generic_linear(), livesets(), livesets(), generic_inst())
+    @st.composite
+    def closures(draw):
+        # nested functions (capturing closures: experimental gate opened by the judge) whose locals,
+        # parameters and captured variables share names with the function itself / each other, are
+        # live across blocks or not, with and without recursion
+        ncap = draw(st.integers(0, 2))
+        shadow = draw(st.sampled_from(["self", "self", "param", "outer", "none"]))
+        recursive = shadow != "self" and draw(st.integers(0, 3)) == 0
+        across = draw(st.booleans())
+        loop = draw(st.booleans())
+        caps = ["k", "m"][:ncap]
+        L = ["# experimental", "@guppy", "def f(a: int, c: bool) -> int:", "    k = a + 1", "    m = a * 2"]
+        local = {"self": "hh", "param": "x", "outer": "k" if ncap == 0 else "zz", "none": "loc"}[shadow]
+        L.append("    def hh(x: int) -> int:")
+        init = " + ".join(["x"] + caps)
+        L.append(f"        {local} = {init}")
+        if across:
+            L += ["        if x > 0:", f"            {local} = {local} + 1"]
+        if loop:
+            L += ["        i = 0", "        while i < 2:", f"            {local} = {local} + i" if across else "            pass", "            i += 1"]
+        if recursive:
+            L += ["        if x > 100:", "            return hh(x - 1)"]
+        L.append(f"        return {local}")
+        call = draw(st.sampled_from(["return hh(a)", "r = hh(a)\n    return r + hh(1)", "if c:\n        return hh(a)\n    return hh(2)"]))
+        L.append("    " + call)
+        return {"src": "\n".join(L) + "\n", "labels": ["tmpl:closure", f"tmpl:closure:shadow_{shadow}", f"tmpl:closure:caps{ncap}"]
+                + (["tmpl:closure:recursive"] if recursive else []) + (["tmpl:closure:across_blocks"] if across else []), "entry": "f"}
+
+    return st.one_of(tuple_sum(), affine_unused(), struct_place(), generic_linear(), livesets(), livesets(), generic_inst(), closures(), closures())
 
 
 def worker(ctx):
@@ -310,11 +347,11 @@ def worker(ctx):
 
     from vlib import runner
     from vlib.gen import generic as G
-    from vlib.gen import lin, prog
+    from vlib.gen import lin, places, prog
 
     @st.composite
     def item(draw):
-        r = draw(st.integers(0, 9))
+        r = draw(st.integers(0, 10))
         if r <= 2:
             p = draw(prog.programs(n_funcs=(1, 3), max_depth=3))
             return {"kind": "genprog", "src": runner.PRELUDE + p["src"], "entry": "main", "is_entry": True,
@@ -323,15 +360,19 @@ def worker(ctx):
             p = draw(lin.valid_programs(name="f"))
             return {"kind": "genlin", "src": runner.PRELUDE + p["src"], "entry": "f", "is_entry": False,
                     "labels": [], "nontrivial": True}
-        if r <= 7:
+        if r <= 6:
             p = draw(G.generic_programs(executable=bool(draw(st.booleans())), max_roots=3))
             return {"kind": "generic", "src": G.PRELUDE + p["generic"], "entry": "main", "is_entry": True,
                     "labels": list(p["labels"])[:12], "nontrivial": bool(p["nontrivial"])}
+        if r == 8:
+            p = draw(places.programs())
+            return {"kind": "places", "src": runner.PRELUDE + p["src"], "entry": "f", "is_entry": False,
+                    "labels": ["places"] + [l for l in p["labels"] if l.startswith("op:")], "nontrivial": bool(p["nontrivial"])}
         t = draw(templates(st))
         return {"kind": "template", "src": runner.PRELUDE + TEMPLATE_PRELUDE + t["src"], "entry": t["entry"], "is_entry": False,
                 "labels": t["labels"], "nontrivial": True}
 
-    rejected = {"genprog": 0, "genlin": 0, "generic": 0, "template": 0}
+    rejected = {"genprog": 0, "genlin": 0, "generic": 0, "template": 0, "places": 0}
     totals = dict(rejected)
 
     def body(it):
@@ -360,7 +401,10 @@ SPEC = harness.Spec(
     rule=("programs well-typed by construction from GenProg (classical fragment), GenLin (linear qubit programs incl. struct/tuple "
           "places, asymmetric branches, loops), the generic-program generator (type / length / comptime parameters, partial "
           "monomorphization) and parametrised shape templates (tuple-sum joins with linear values, unused affine values, struct "
-          "places across loops, functions generic over linear T and n); each accepted program is compiled and the package is "
+          "places across loops, functions generic over linear T and n, nested functions with captured variables and name shadowing "
+          "- experimental gate open) and GenPlaces (valid-by-construction statement sequences over places nested three levels deep: "
+          "whole / partial consumption, borrowing, re-assignment of leaves, intermediate structs and roots, moves, state-preserving "
+          "branches and loops); each accepted program is compiled and the package is "
           "validated by hugr-core. non-trivial = accepted program with a loop or join plus a linear value / generic instantiation / "
           "inserted drop (all GenLin and template programs, flagged GenProg and generic ones); distinct = distinct source"),
     assumptions=["hugr-core's validator (hugr wheel) is the judge of HUGR validity; the package is validated exactly as /repo emitted it, with extension "
